@@ -67,7 +67,7 @@ fn extreme_input(r: &mut Rng, thorough: bool) -> (Vec<u8>, &'static str) {
         9 => (b"{\"ts\":\"9999-12-31T23:59:59Z\",\"t2\":\"0001-01-01T00:00:00Z\",\"s\":\"2021-02-30\",\"n\":0}\n{\"ts\":\"1970-01-01\",\"n\":2147483648}\n".to_vec(), "dates"),
         10 => (b"\0\0\0\n{\"n\":\0}\n\x7f\x1b[2K\n".to_vec(), "control-chars"),
         11 => {
-            let rows = if thorough { 20000 } else { 1500 };
+            let rows = if thorough { 6000 } else { 1500 };
             (gen::json_input(r, rows, &gen::DocCfg { key_domain: 5, numeric_only: false }, 10), "many-rows")
         }
         12 => (b"{\"n\":0,\"x\":0,\"s\":\"\",\"k\":\"\",\"b\":false,\"arr\":[],\"o\":{}}\n{\"n\":-0,\"x\":-0.0,\"s\":\" \",\"arr\":[[]],\"o\":{\"p\":{}}}\n".to_vec(), "zeros-and-empties"),
@@ -132,7 +132,7 @@ fn classify_panic(p: &str, q: &str) -> &'static str {
 }
 
 pub fn check(ctx: &mut Ctx) {
-    let n = ctx.budget(1200, 150000);
+    let n = ctx.budget(1200, 40000);
     for _ in 0..n {
         let mut r = ctx.rng.fork();
         let q = edge_query(&mut r);
@@ -150,15 +150,19 @@ pub fn check(ctx: &mut Ctx) {
             }
         }
         let key = ckey(&q, &input);
-        let res = imp::run(&q, &input, mode, 20);
+        // generous limits: big inputs with an error line per row are slow on a loaded machine, and a
+        // run that is merely slow must not be reported as one that never ends
+        let limit = if input.len() > 100_000 { 180 } else { 40 };
+        let res = imp::run(&q, &input, mode, limit);
         let info = serde_json::json!({"query": q, "mode": mode, "input_kind": kind, "input_hex": if input.len() < 4000 { crate::enc::hexb(&input) } else { format!("({} bytes)", input.len()) }});
+        if res.hung {
+            ctx.case(kind, &key, "viol", serde_json::json!({"class": "", "what": format!("run did not finish within {} s", limit), "case": info}));
+            crate::imp::emit(&serde_json::json!({"k": "done", "driver_requests": ctx.drv.requests}).to_string());
+            std::process::exit(0); // a hung thread owns the process
+        }
         if !res.compiled && res.panicked.is_none() {
             ctx.case(kind, "", "skip", serde_json::json!({"why": "query rejected at compile time"}));
             continue;
-        }
-        if res.hung {
-            ctx.case(kind, &key, "viol", serde_json::json!({"class": "", "what": "run did not finish within 20 s", "case": info}));
-            std::process::exit(0); // a hung thread owns the process
         }
         if let Some(p) = &res.panicked {
             let class = classify_panic(p, &q);
@@ -172,7 +176,7 @@ pub fn check(ctx: &mut Ctx) {
             match compare(&c, true) {
                 F::Agree => ctx.case("model", &key, "pass", info),
                 F::Skip(w) => ctx.case("model", "", "skip", serde_json::json!({"why": w.split(':').next().unwrap_or("").chars().take(60).collect::<String>()})),
-                F::Disagree(d) => ctx.case("model", &key, "fdis", serde_json::json!({"what": d.chars().take(1200).collect::<String>(), "case": info})),
+                F::Disagree(d) => ctx.case("model", &key, "fdis", serde_json::json!({"what": d.chars().take(1200).collect::<String>(), "impl_stderr": c.imp.stderr.chars().take(600).collect::<String>(), "case": info})),
             }
         }
     }
